@@ -412,7 +412,11 @@ def _subscript(node, env):
             b = as_data(ev(x, env))
             if not isinstance(b, SV) or b.sort not in ('int', 'null'): raise Unmodelled('slice bound')
             return b
-        lo, hi = sqlsem.py_slice_window(n, bound(sl.lower), bound(sl.upper))
+        lo_b, hi_b = bound(sl.lower), bound(sl.upper)
+        if hi_b is not None and hi_b.sort == 'int':
+            zero_start = TRUE if lo_b is None or lo_b.sort == 'null' else z3.Or(lo_b.n, lo_b.t == 0)
+            env.region('slice-from-0-to-minus-1-returns-whole-string', z3.And(z3.Not(hi_b.n), hi_b.t == -1, zero_start))
+        lo, hi = sqlsem.py_slice_window(n, lo_b, hi_b)
         return sqlsem.str_window(v, lo, hi, FALSE)
     i = as_data(ev(sl, env))
     if not isinstance(i, SV) or i.sort != 'int': raise Unmodelled('string index')
